@@ -46,6 +46,20 @@ def generated_layer(rng, no=None):
         dz = 0.0 if flat else float(rng.uniform(-1.5, 1.5))
         basis.append((float(x), float(y), 0.5 + dz / L))
     symbols = [int(z) for z in rng.choice(SPECIES, size=n_orb, replace=rng.random() < 0.3)]
+    stacked = False
+    if rng.random() < 0.3:
+        # elemental buckled layer with unequal occupation of symmetry-related axes: two orbits of ONE element on the
+        # same special in-plane site at different heights, a third one on another special site (a, a, b patterns)
+        sites = [(0.0, 0.0), (1 / 3, 2 / 3), (2 / 3, 1 / 3)] if LAYER_GROUPS[no] == "hex" else [(0.0, 0.0), (0.5, 0.5), (0.0, 0.5), (0.5, 0.0)]
+        i, j = (int(k) for k in rng.choice(len(sites), size=2, replace=False))
+        h = sorted(float(v) for v in rng.uniform(-1.5, 1.5, size=3))
+        if h[1] - h[0] < 0.9:
+            h[1] = h[0] + 0.9 + 0.4 * float(rng.random())
+        basis = [(sites[i][0], sites[i][1], 0.5 + h[0] / L), (sites[i][0], sites[i][1], 0.5 + min(h[1], 1.5) / L),
+                 (sites[j][0], sites[j][1], 0.5 + float(rng.uniform(-1.5, 1.5)) / L)]
+        z0 = int(rng.choice(SPECIES))
+        symbols = [z0, z0, z0] if rng.random() < 0.7 else [z0, z0, int(rng.choice(SPECIES))]
+        stacked, flat, n_orb = True, False, 3
     try:
         at = crystal(symbols, basis, spacegroup=no, cellpar=[a, b, L, 90, 90, gamma], onduplicates="error", symprec=1e-4)
     except Exception:
@@ -54,7 +68,8 @@ def generated_layer(rng, no=None):
     if (np.abs(z - 0.5) * L > 1.6).any() or len(at) > 40 or min_distance(at) < 0.9:
         return None, None
     at = Atoms(numbers=at.get_atomic_numbers(), positions=at.get_positions(), cell=at.get_cell().array, pbc=[True, True, False])
-    return at, {"source": "generated", "layer_group": no, "lattice": LAYER_GROUPS[no], "flat": bool(flat), "natoms": len(at)}
+    return at, {"source": "generated", "layer_group": no, "lattice": LAYER_GROUPS[no], "flat": bool(flat), "natoms": len(at),
+                "stacked_elemental": bool(stacked)}
 
 
 def known_layer(rng):
